@@ -66,6 +66,7 @@ def run(idx: ProgramIndex, rep: Report, tier: str):
     from .common_twin import twin_obligations
     twin_obligations(idx, rep, "C06-6", 30)
     derivative_diag_layout(idx, rep)
+    lazy_batch_ops(idx, rep)
 
 
 # ---- C06-1 ---------------------------------------------------------------------------------------------------------
@@ -542,3 +543,67 @@ def derivative_diag_layout(idx: ProgramIndex, rep: Report):
                             "all blocks are point-minor (%s), as the permutation (view(components, points).t()) assumes" % lay[2] if ok else
                             "the concatenated blocks have minor axis %s, the permutation reads its source as point-minor (%s): a block of shape (n, d) was flattened without the transpose, so entries of different input dimensions are exchanged" % (lay[2] if lay[0] == "flat" else lay, perm[1]), {"layout": str(lay)})
     rep.floor("C06-7", "permuted diagonals of derivative kernels", n, 3)
+
+
+# ---- C06-8 ---------------------------------------------------------------------------------------------------------
+EXTRA_FILES = {"linear_operator.operators._linear_operator": "linear_operator/operators/_linear_operator.py"}
+BATCH_OPS = ("_permute_batch", "_unsqueeze_batch", "_expand_batch", "repeat", "_getitem")
+X_BATCH_PRESERVING = {"transpose", "mT"}
+
+
+def lazy_batch_ops(idx: ProgramIndex, rep: Report):
+    """The batch shape of a LazyEvaluatedKernelTensor is the broadcast of the inputs' batch shapes and the kernel's batch shape, but the
+    kernel is a keyword argument of the operator: the generic LinearOperator implementations of batch re-arrangements (written over the
+    tensor arguments self._args) move the inputs' batch dimensions and leave the kernel's parameters where they were.  Every batch
+    re-arranging primitive therefore has to be overridden, and the override has to hand a correspondingly re-arranged kernel (not
+    self.kernel itself) to the re-construction whenever it re-arranges the batch dimensions of x1 / x2."""
+    rep.rule("C06-8", "batch re-arrangements of a lazily evaluated kernel (permute / unsqueeze / repeat / expand / index) re-arrange the kernel's batch parameters together with x1 and x2")
+    lek = idx.cls(idx.package + ".lazy.lazy_evaluated_kernel_tensor", "LazyEvaluatedKernelTensor")
+    base = idx.cls("linear_operator.operators._linear_operator", "LinearOperator")
+    n = 0
+    for op in BATCH_OPS:
+        own = lek.methods.get(op)
+        bfi = base.methods.get(op)
+        if bfi is None and own is None:
+            raise AnalysisError("C06-8: LinearOperator.%s not found (anchor vanished)" % op)
+        inst = "%s:LazyEvaluatedKernelTensor.%s" % (lek.module.name, op)
+        n += 1
+        if own is None:
+            generic = any(chain(x) in ("self._args", "self.representation") for x in ast.walk(bfi.node))
+            delegates = sorted({c.func.attr for c in calls_in(bfi.node) if isinstance(c.func, ast.Attribute) and chain(c.func.value) == "self" and c.func.attr in BATCH_OPS and c.func.attr != op})
+            if generic:
+                rep.add("C06-8", inst, lek.where, False,
+                        "%s is not overridden: the inherited LinearOperator.%s re-arranges the tensor arguments (x1, x2) component-wise and passes the keyword arguments - the kernel with its batched parameters - on unchanged, so after the operation the inputs of one batch element are evaluated with the hyper-parameters of another" % (op, op), {})
+            else:
+                rep.add("C06-8", inst, lek.where, bool(delegates), "inherited LinearOperator.%s delegates to %s" % (op, ", ".join(delegates)) if delegates else
+                        "inherited LinearOperator.%s neither delegates to an overridden primitive nor is generic over the arguments: not understood" % op, {})
+            continue
+        ctors = [c for c in calls_in(own.node) if src(c.func) in ("self.__class__", "LazyEvaluatedKernelTensor", "type(self)")]
+        if not ctors:
+            rep.add("C06-8", inst, own.where, False, "no re-construction found in the override", {})
+            continue
+        from ..symbolic import inline, walk_paths
+        probs = []
+        for path, seq in walk_paths(own):
+            for st, env in seq:
+                if not isinstance(st, ast.stmt):
+                    continue
+                for c in (x for x in ast.walk(st) if isinstance(x, ast.Call) and src(x.func) in ("self.__class__", "LazyEvaluatedKernelTensor", "type(self)")):
+                    kw = {k.arg: inline(k.value, env) for k in c.keywords}
+                    xs = [inline(a, env) for a in c.args[:2]] + [kw[k] for k in ("x1", "x2") if k in kw]
+                    ker = kw.get("kernel", inline(c.args[2], env) if len(c.args) > 2 else None)
+                    moved = [x for x in xs if src(x) not in ("self.x1", "self.x2")]
+                    batch_moved = []
+                    for x in moved:
+                        # an x whose batch dimensions are re-arranged: any call / subscript on self.x* other than row selections on dim -2
+                        ops = [m.func.attr for m in ast.walk(x) if isinstance(m, ast.Call) and isinstance(m.func, ast.Attribute)]
+                        subs = [m for m in ast.walk(x) if isinstance(m, ast.Subscript)]
+                        if any(o in ("unsqueeze", "repeat", "permute", "expand", "squeeze", "movedim") for o in ops) or any("batch_ind" in src(m.slice) for m in subs):
+                            batch_moved.append(x)
+                    # the kernel may stay as it is on the paths where the batch indices were tested to be trivial (all full slices / none)
+                    trivial = any(getattr(s_, "kind", "") == "assume" and s_.truth is True and "slice(None" in src(s_.node) and "all(" in src(s_.node)
+                                  for s_, _e in seq if not isinstance(s_, ast.stmt))
+                    if batch_moved and ker is not None and src(ker) == "self.kernel" and not trivial:
+                        probs.append("re-arranges the batch dimensions of the inputs (`%s`) but passes kernel=self.kernel unchanged: the kernel's batched parameters stay aligned with the old batch dimensions" % " ".join(src(batch_moved[0]).split())[:60])
+        rep.add("C06-8", inst, own.where, not probs, "the override re-arranges the kernel together with the inputs (or leaves the batch dimensions alone)" if not probs else "; ".join(sorted(set(probs))), {})
+    rep.floor("C06-8", "batch re-arranging primitives", n, 5)
